@@ -421,12 +421,84 @@ def check_rename_units(ctx):
            mod=TK, node=fn, sig="rename-delegates")
 
 
+def check_add_bit(ctx):
+    """R13.9: tk.Circuit.add_bit(unit, offset) extends the post-processing by one wire (the new register is the last one) and moves that wire to
+    position `offset`, keeping the order of the others"""
+    m = ctx.model
+    q = TK + ".Circuit.add_bit"
+    fn = m.func(q)
+    ctx.analysed(q)
+    offp = fn.args.args[2].arg
+    guard = next((s for s in fn.body if isinstance(s, ast.If) and ast.unparse(s.test) == "%s is not None" % offp), None)
+    ctx.need(guard is not None, "add_bit does not distinguish offset=None")
+    ext = [s for s in guard.body if isinstance(s, ast.AugAssign) and isinstance(s.op, ast.MatMult) and ast.unparse(s.target) == "self.post_processing"]
+    perm = [s for s in guard.body if isinstance(s, ast.AugAssign) and isinstance(s.op, ast.RShift) and ast.unparse(s.target) == "self.post_processing"]
+    ctx.need(len(ext) == 1 and len(perm) == 1 and guard.body.index(ext[0]) < guard.body.index(perm[0]), "add_bit is not `post_processing @= Id(bit)` followed by `post_processing >>= <permutation>`")
+    ctx.ob("R13.9", q + ":extends", ast.unparse(ext[0].value) in ("Id(bit)", "Id(bit ** 1)"), found=ast.unparse(ext[0]), required="one more input and output wire at the end: the new register is the last one", mod=TK, node=ext[0],
+           sig="add-bit-extends")
+    o, mlen = Lin.var("offset"), Lin.var("m")
+    facts = Facts([o, mlen])
+    atoms = {"X0": Atom("X0", o), "X1": Atom("X1", mlen), "B": Atom("B", Lin.of(1))}
+    row = Seq([Seg(atoms["X0"]), Seg(atoms["X1"]), Seg(atoms["B"])])
+    ev = LinEv({offp: o})
+    factors = []
+
+    def flat(e):
+        if isinstance(e, ast.BinOp) and isinstance(e.op, ast.MatMult):
+            flat(e.left)
+            flat(e.right)
+        else:
+            factors.append(e)
+    flat(perm[0].value)
+
+    def width(e, pos):
+        """number of wires of a type expression: bit, bit ** k, or a slice of the post-processing's codomain (evaluated on the row)"""
+        if ast.unparse(e) == "bit":
+            return Lin.of(1)
+        if isinstance(e, ast.BinOp) and isinstance(e.op, ast.Pow) and ast.unparse(e.left) == "bit":
+            return ev.ev(e.right)
+        if isinstance(e, ast.Subscript) and isinstance(e.slice, ast.Slice) and ast.unparse(e.value) == "self.post_processing.cod":
+            sl = row.slice(ev.ev(e.slice.lower) if e.slice.lower is not None else None, ev.ev(e.slice.upper) if e.slice.upper is not None else None, facts)
+            return sl.length
+        raise Unsupported("type expression %s" % ast.unparse(e))
+    probs = []
+    try:
+        pos, new_row = Lin.of(0), Seq()
+        for f in factors:
+            if isinstance(f, ast.Call) and ast.unparse(f.func) == "Id" and len(f.args) == 1:
+                w = width(f.args[0], pos)
+                new_row = new_row + row.slice(pos, pos + w, facts)
+                pos = pos + w
+            elif isinstance(f, ast.Call) and ast.unparse(f.func).endswith(".swap") and len(f.args) == 2:
+                l, r = width(f.args[0], pos), width(f.args[1], pos)
+                new_row = new_row + row.slice(pos + l, pos + l + r, facts) + row.slice(pos, pos + l, facts)
+                pos = pos + l + r
+            else:
+                raise Unsupported("factor %s" % ast.unparse(f))
+        if not facts.eq(pos, row.length):
+            probs.append("the permutation has %r wires, the post-processing %r" % (pos, row.length))
+        else:
+            want = Seq([Seg(atoms["X0"]), Seg(atoms["B"]), Seg(atoms["X1"])])
+            if not new_row.same(want, facts):
+                probs.append("the outputs become %r" % (new_row,))
+    except Unlocatable as e:
+        probs.append(str(e))
+    except Unsupported as e:
+        raise AnalysisError("add_bit outside the recognised idioms: %s" % e)
+    ctx.ob("R13.9", q + ":position", not probs, found="; ".join(probs) or "X0 B X1", required="the new (last) wire B moves to position offset, the wires X0 before and X1 after it keep their order", mod=TK, node=perm[0],
+           sig="add-bit-position")
+    sup = [c for c in ast.walk(fn) if isinstance(c, ast.Call) and ast.unparse(c.func) == "super().add_bit"]
+    ctx.ob("R13.9", q + ":delegates", len(sup) == 1 and [ast.unparse(a) for a in sup[0].args] == [fn.args.args[1].arg], found=[ast.unparse(c) for c in sup], required="the bit itself is added by pytket", mod=TK, node=fn,
+           sig="add-bit-delegates")
+
+
 def check(ctx):
     m = ctx.model
     top = m.func(TK + ".to_tk")
     fn = m.func(TK + ".from_tk")
     check_prepare(ctx, top)
     check_bit_positions(ctx, top)
+    check_add_bit(ctx)
     check_from_tk_bits(ctx, fn)
     check_adjacent(ctx, fn)
     check_rename_units(ctx)
